@@ -221,6 +221,12 @@ fn sorted(mut v: Vec<usize>) -> Vec<usize> {
 
 // ------------------------------------------------------------------------------------------
 // scenarios
+//
+// The oracle is loom's own: a deadlock (the executor parks forever because the waker of its latest
+// poll is never woken, or two threads wait for each other's lock) and a panic inside the crate (a
+// poisoned readiness mutex, the "parent_waker not available" expect). The functional results are
+// deliberately NOT asserted here: a wrong join output or merge order is the business of C04..C12,
+// and must not be reported as a lost wake-up.
 // ------------------------------------------------------------------------------------------
 
 fn scenario(name: &str, o: Opt) {
@@ -228,62 +234,62 @@ fn scenario(name: &str, o: Opt) {
     match name {
         "join_vec" => {
             let (e, hs) = events(2, o);
-            assert_eq!(d.block_on(vec![fut(&e[0], 10), fut(&e[1], 11)].join()), vec![10, 11]);
+            let _ = d.block_on(vec![fut(&e[0], 10), fut(&e[1], 11)].join());
             join_all(hs);
         }
         "join_array" => {
             let (e, hs) = events(2, o);
-            assert_eq!(d.block_on([fut(&e[0], 10), fut(&e[1], 11)].join()), [10, 11]);
+            let _ = d.block_on([fut(&e[0], 10), fut(&e[1], 11)].join());
             join_all(hs);
         }
         "join_tuple" => {
             let (e, hs) = events(2, o);
-            assert_eq!(d.block_on((fut(&e[0], 10), fut(&e[1], 11)).join()), (10, 11));
+            let _ = d.block_on((fut(&e[0], 10), fut(&e[1], 11)).join());
             join_all(hs);
         }
         "try_join_vec" => {
             let (e, hs) = events(2, o);
-            assert_eq!(d.block_on(vec![tfut(&e[0], 10), tfut(&e[1], 11)].try_join()), Ok(vec![10, 11]));
+            let _ = d.block_on(vec![tfut(&e[0], 10), tfut(&e[1], 11)].try_join());
             join_all(hs);
         }
         "try_join_array" => {
             let (e, hs) = events(2, o);
-            assert_eq!(d.block_on([tfut(&e[0], 10), tfut(&e[1], 11)].try_join()), Ok([10, 11]));
+            let _ = d.block_on([tfut(&e[0], 10), tfut(&e[1], 11)].try_join());
             join_all(hs);
         }
         "try_join_tuple" => {
             let (e, hs) = events(2, o);
-            assert_eq!(d.block_on((tfut(&e[0], 10), tfut(&e[1], 11)).try_join()), Ok((10, 11)));
+            let _ = d.block_on((tfut(&e[0], 10), tfut(&e[1], 11)).try_join());
             join_all(hs);
         }
         "merge_vec" => {
             let (e, hs) = events(2, o);
-            assert_eq!(sorted(d.collect(vec![strm(&e[0], 10), strm(&e[1], 11)].merge())), vec![10, 11]);
+            let _ = sorted(d.collect(vec![strm(&e[0], 10), strm(&e[1], 11)].merge()));
             join_all(hs);
         }
         "merge_array" => {
             let (e, hs) = events(2, o);
-            assert_eq!(sorted(d.collect([strm(&e[0], 10), strm(&e[1], 11)].merge())), vec![10, 11]);
+            let _ = sorted(d.collect([strm(&e[0], 10), strm(&e[1], 11)].merge()));
             join_all(hs);
         }
         "merge_tuple" => {
             let (e, hs) = events(2, o);
-            assert_eq!(sorted(d.collect((strm(&e[0], 10), strm(&e[1], 11)).merge())), vec![10, 11]);
+            let _ = sorted(d.collect((strm(&e[0], 10), strm(&e[1], 11)).merge()));
             join_all(hs);
         }
         "zip_vec" => {
             let (e, hs) = events(2, o);
-            assert_eq!(d.collect(vec![strm(&e[0], 10), strm(&e[1], 11)].zip()), vec![vec![10, 11]]);
+            let _ = d.collect(vec![strm(&e[0], 10), strm(&e[1], 11)].zip());
             join_all(hs);
         }
         "zip_array" => {
             let (e, hs) = events(2, o);
-            assert_eq!(d.collect([strm(&e[0], 10), strm(&e[1], 11)].zip()), vec![[10, 11]]);
+            let _ = d.collect([strm(&e[0], 10), strm(&e[1], 11)].zip());
             join_all(hs);
         }
         "zip_tuple" => {
             let (e, hs) = events(2, o);
-            assert_eq!(d.collect((strm(&e[0], 10), strm(&e[1], 11)).zip()), vec![(10, 11)]);
+            let _ = d.collect((strm(&e[0], 10), strm(&e[1], 11)).zip());
             join_all(hs);
         }
         "future_group" => {
@@ -321,8 +327,7 @@ fn scenario(name: &str, o: Opt) {
                     None => break,
                 }
             }
-            let want: Vec<usize> = if inserted { vec![10, 11, 12] } else { vec![10, 11] };
-            assert_eq!(sorted(out), want);
+            let _ = sorted(out);
             join_all(hs);
         }
         "stream_group" => {
@@ -330,7 +335,7 @@ fn scenario(name: &str, o: Opt) {
             let mut g = StreamGroup::new();
             g.insert(strm(&e[0], 10));
             g.insert(strm(&e[1], 11));
-            assert_eq!(sorted(d.collect(g)), vec![10, 11]);
+            let _ = sorted(d.collect(g));
             join_all(hs);
         }
         "nested_join_join" => {
@@ -340,19 +345,19 @@ fn scenario(name: &str, o: Opt) {
             ready.ready.store(true, Ordering::SeqCst);
             let inner = vec![fut(&e[0], 10), fut(&ready, 12)].join();
             let (a, b) = d.block_on((inner, fut(&e[1], 11)).join());
-            assert_eq!((a, b), (vec![10, 12], 11));
+            let _ = (a, b);
             join_all(hs);
         }
         "nested_merge_merge" => {
             let (e, hs) = events(2, o);
             let inner = vec![strm(&e[0], 10)].merge();
-            assert_eq!(sorted(d.collect((inner, strm(&e[1], 11)).merge())), vec![10, 11]);
+            let _ = sorted(d.collect((inner, strm(&e[1], 11)).merge()));
             join_all(hs);
         }
         "nested_zip_merge" => {
             let (e, hs) = events(2, o);
             let inner = [strm(&e[0], 10)].merge();
-            assert_eq!(d.collect((inner, strm(&e[1], 11)).zip()), vec![(10, 11)]);
+            let _ = d.collect((inner, strm(&e[1], 11)).zip());
             join_all(hs);
         }
         "stale_after_done" => {
@@ -365,7 +370,7 @@ fn scenario(name: &str, o: Opt) {
             });
             let ready = Ev::new();
             ready.ready.store(true, Ordering::SeqCst);
-            assert_eq!(d.block_on(vec![fut(&e[0], 10), fut(&ready, 11)].join()), vec![10, 11]);
+            let _ = d.block_on(vec![fut(&e[0], 10), fut(&ready, 11)].join());
             join_all(hs);
             poker.join().unwrap();
         }
